@@ -15,12 +15,15 @@ from .se import Unsupported
 REGISTRY = {}          # target id -> Target
 
 
+class BoundedOnly(Exception): pass
+
+
 class Target:
     def __init__(self, tid, props, file, qual, anchor=None, anchor_end=None, strings=False, note='',
-                 assumes=()):
+                 assumes=(), bounded_only=False):
         self.id, self.props, self.file, self.qual = tid, list(props), file, qual
         self.anchor, self.anchor_end, self.strings, self.note = anchor, anchor_end, strings, note
-        self.assumes = list(assumes)
+        self.assumes = list(assumes); self.bounded_only = bounded_only
         self._sym = self._conc = self._scope = self._decode = None
         self.regions = {}      # finding id -> (sym fn(run) -> z3 Bool, conc fn(inputs) -> bool)
         assert tid not in REGISTRY, tid
@@ -133,10 +136,14 @@ def run_target(tid, tier='quick', seed=0, open_findings=(), source=None, do_conc
     run = Run(t, tier, source)
     # ---- symbolic side
     try:
-        if t._sym is None: raise Unsupported('no symbolic contract (bounded only)')
+        if t._sym is None:
+            if t.bounded_only: raise BoundedOnly()
+            raise Unsupported('no symbolic contract')
         t._sym(run)
         res['src_hash'], res['paths'] = run.src_hash, run.paths
         if not run.vcs: raise Unsupported('zero obligations generated')
+    except BoundedOnly:
+        res['status'] = 'bounded-only'
     except Unsupported as e:
         res['status'] = 'undecided'; res['reason'] = f'Unsupported: {e}'
     except Exception as e:
